@@ -74,6 +74,10 @@ structure Src (α : Type) where
   /-- group metadata: key ↦ (data_type, payload); `[]` stands for `None` -/
   ogmd : List (String × String × String) := []
   sgmd : List (String × String × String) := []
+  /-- group-metadata entries whose value is a bare text instead of a (data_type, payload) pair — what
+  `from_hdf5` leaves in a table it has loaded -/
+  ogmdBare : List (String × String) := []
+  sgmdBare : List (String × String) := []
   /-- header values the table object itself carries (`Table(..., generated_by=…, create_date=…)`, or
   left behind by a previous load).  `to_hdf5` does not read them: the file gets the ARGUMENTS. -/
   ownGeneratedBy : Option String := none
@@ -214,6 +218,10 @@ text under `taxonomy`, which is outside the domain of the property -/
 def splitTax (s : String) : List String :=
   (s.splitOn ";").map (fun p => p.trimAscii.toString)
 
+/-- flat texts split into their parts -/
+def splitCol (col : List (MdVal α)) : List (MdVal α) :=
+  col.map (fun v => match v with | .text s => .list (splitTax s) | v => v)
+
 /-- `vlen_list_of_str_formatter(grp, header, md, compression)`; the dataset name is NOT escaped -/
 def listFmt (c : Utf8) (k : String) (col : List (MdVal α)) : Except Err (String × DSet α) :=
   if col.any MdVal.isNum then .error .type          -- len() of a number
@@ -221,7 +229,7 @@ def listFmt (c : Utf8) (k : String) (col : List (MdVal α)) : Except Err (String
     let col' : Except Err (List (MdVal α)) :=
       if col.any MdVal.isText then
         if k == "taxonomy" && col.all MdVal.isText then
-          .ok (col.map (fun v => match v with | .text s => .list (splitTax s) | v => v))
+          .ok (splitCol col)
         else .error .type
       else .ok col
     match col' with
@@ -295,14 +303,19 @@ def matGrp (nnz : Nat) (cs : CS α) : Except Err (MatGrp α) :=
 def gmdDsets (c : Utf8) (g : List (String × String × String)) : List (String × DSet α) :=
   g.map (fun kv => (kv.1, { kind := .vlenStr, data := .d1 [strCell c kv.2.2], dataType := some kv.2.1 }))
 
+/-- `datatype, val = ('', value) if isinstance(value, str) else value`: a bare text (the form
+`from_hdf5` hands back) is a payload with an empty data type -/
+def gmdAll (g : List (String × String × String)) (bare : List (String × String)) : List (String × String × String) :=
+  g ++ bare.map (fun kv => (kv.1, "", kv.2))
+
 def axGrp (c : Utf8) (ids : List Id) (md : Option (List (MdE α))) (gmd : List (String × String × String))
-    (nnz : Nat) (cs : CS α) : Except Err (AxGrp α) := do
+    (bare : List (String × String)) (nnz : Nat) (cs : CS α) : Except Err (AxGrp α) := do
   let mds ← mdDsets c md
   let m ← matGrp nnz cs
   let idsDs : DSet α :=
     if ids.length > 0 then strDs c ids
     else { kind := .vlenStr, data := .d1 [] }      -- the empty-axis branch
-  pure { ids := some idsDs, md := some mds, gmd := some (gmdDsets c gmd), matrix := some m }
+  pure { ids := some idsDs, md := some mds, gmd := some (gmdDsets c (gmdAll gmd bare)), matrix := some m }
 
 def idAttr (tid : Option String) : String :=
   match tid with
@@ -324,8 +337,8 @@ def toH5 (c : Utf8) (dc : DateC δ) (t : Src α) (genBy : String) (date : Option
      ("format-url", .str "http://biom-format.org"), ("format-version", .ints [2, 1]),
      ("generated-by", .str genBy), ("creation-date", .str (dc.iso (date.getD now))),
      ("shape", .ints [Int.ofNat csr.nMajor, Int.ofNat csr.nMinor]), ("nnz", .int (Int.ofNat nnz))]
-  let o ← axGrp c t.obs t.omd t.ogmd nnz csr
-  let s ← axGrp c t.samp t.smd t.sgmd nnz csc
+  let o ← axGrp c t.obs t.omd t.ogmd t.ogmdBare nnz csr
+  let s ← axGrp c t.samp t.smd t.sgmd t.sgmdBare nnz csc
   pure { attrs := attrs, obs := some o, samp := some s }
 
 /-! ### a reader written from biom-2.1.rst only -/
@@ -457,6 +470,18 @@ def attrsOK [Zero α] [DecidableEq α] (t : Src α) (h : H5 α) : Bool :=
   h.attrs.lookup "shape" == some (.ints [Int.ofNat t.obs.length, Int.ofNat t.samp.length]) &&
   h.attrs.lookup "nnz" == some (.int (Int.ofNat (nnzGrid t.rows)))
 
+/-- header values: `generated-by` is the writer's ARGUMENT (not what the table object carries),
+`creation-date` the supplied date in ISO format, `id` the table id or the placeholder, `type` the
+table type or '', `format-url` the static URL -/
+def headerOK (t : Src α) (genBy : String) (dateIso : Option String) (h : H5 α) : Bool :=
+  h.attrs.lookup "generated-by" == some (.str genBy) &&
+  (match dateIso with
+   | some d => h.attrs.lookup "creation-date" == some (.str d)
+   | none => true) &&
+  h.attrs.lookup "id" == some (.str (idAttr t.tableId)) &&
+  h.attrs.lookup "type" == some (.str (typeAttr t.ttype)) &&
+  h.attrs.lookup "format-url" == some (.str "http://biom-format.org")
+
 def axGroupsOK (g : Option (AxGrp α)) : Bool :=
   match g with
   | some g => g.md.isSome && g.gmd.isSome && g.matrix.isSome
@@ -477,6 +502,11 @@ def represents [DecidableEq α] (c : Utf8) : MdVal α → Row α → Bool
   | .list l, .vec cells =>
       cells.all (fun x => match x with | .s _ => true | _ => false) &&
       okEq ((cells.filter (fun x => x != .s c.empty)).mapM (cellStr c)) l
+  | .text s, .vec cells =>
+      -- a flat text under a hierarchical dataset (classic-TSV taxonomy 'k__A; p__x'): the row holds
+      -- its ';'-separated, stripped, non-empty parts
+      cells.all (fun x => match x with | .s _ => true | _ => false) &&
+      okEq ((cells.filter (fun x => x != .s c.empty)).mapM (cellStr c)) ((splitTax s).filter (fun p => p != ""))
   | .none, .scalar (.s x) => x == c.empty
   | .none, .vec cells => cells.all (fun x => x == .s c.empty)
   | _, _ => false
@@ -535,11 +565,13 @@ def decodeOK [Zero α] [DecidableEq α] (c : Utf8) (t : Src α) (h : H5 α) : Bo
   | .error _ => false
   | .ok st => st.obs == t.obs && st.samp == t.samp && st.byObs == t.rows && st.bySamp == t.rows
 
-def clauses [Zero α] [DecidableEq α] (c : Utf8) (t : Src α) (h : H5 α) : List (String × Bool) :=
+def clauses [Zero α] [DecidableEq α] (c : Utf8) (t : Src α) (genBy : String) (dateIso : Option String)
+    (h : H5 α) : List (String × Bool) :=
   let n := t.obs.length
   let m := t.samp.length
   let z := nnzGrid t.rows
   [("attributes", attrsOK t h),
+   ("header-values", headerOK t genBy dateIso h),
    ("groups", axGroupsOK h.obs && axGroupsOK h.samp),
    ("observation/ids", idsOK c t.obs h.obs),
    ("sample/ids", idsOK c t.samp h.samp),
@@ -549,8 +581,9 @@ def clauses [Zero α] [DecidableEq α] (c : Utf8) (t : Src α) (h : H5 α) : Lis
    ("sample/matrix", viewOK m n z h.samp),
    ("decode", decodeOK c t h)]
 
-def holds [Zero α] [DecidableEq α] (c : Utf8) (t : Src α) (h : H5 α) : Bool :=
-  (clauses c t h).all (·.2)
+def holds [Zero α] [DecidableEq α] (c : Utf8) (t : Src α) (genBy : String) (dateIso : Option String)
+    (h : H5 α) : Bool :=
+  (clauses c t genBy dateIso h).all (·.2)
 
 /-! ### JSON glue -/
 open Codec
@@ -586,6 +619,8 @@ def asSrc (j : Json) : R (Src Rat) := do
          omd := (← optF (asList asMdE) j "omd"), smd := (← optF (asList asMdE) j "smd"),
          ttype := (← optF asStr j "type"), tableId := (← optF asStr j "table_id"),
          ogmd := (← listF asGmd j "ogmd"), sgmd := (← listF asGmd j "sgmd"),
+         ogmdBare := (← match optFld j "ogmd_bare" with | some v => asList (asPair asStr) v | none => pure []),
+         sgmdBare := (← match optFld j "sgmd_bare" with | some v => asList (asPair asStr) v | none => pure []),
          ownGeneratedBy := (← optF asStr j "own_generated_by"), ownCreateDate := (← optF asStr j "own_create_date") }
 
 def asKind (s : String) : Kind :=
@@ -693,11 +728,11 @@ def handle (req : Json) : R Json := do
   let now ← strFD req "now" ""
   let csr ← asCS (← fld req "csr")
   let csc ← asCS (← fld req "csc")
-  let v := firstFailing (clauses Utf8.ident src raw)
+  let v := firstFailing (clauses Utf8.ident src genBy date raw)
   let model := toH5 Utf8.ident DateC.ident src genBy date now csr csc
   let (mj, modelHolds) : Json × Bool :=
     match model with
-    | .ok h => (h5ToJson h, holds Utf8.ident src h)
+    | .ok h => (h5ToJson h, holds Utf8.ident src genBy date h)
     | .error e => (errToJson e, false)
   let rj := h5ToJson raw
   let dec : Json := match specDecode Utf8.ident raw with
